@@ -162,7 +162,7 @@ func c11parseRaces(log string) []c11raceReport {
 }
 
 func c11race(c *Ctx) {
-	n := c.N(40, 1500)
+	n := c.N(30, 1500)
 	reps := c.N(1, 3)
 	t0 := time.Now()
 	bin, err := c11raceBinary()
